@@ -218,6 +218,16 @@ def pymod_pos_const(x, c, kbits=40):
     so r = fma(-k, c, |x|) is that value, and it is the only k with
     0 <= r < c.  Then Python's sign fix-up (which *is* a rounded addition)."""
     ctx = Ctx.cur
+    cache = ctx.env.setdefault('pymod', {})
+    ck = (x.get_id(), c)
+    if ck in cache:
+        return cache[ck][1]
+    res = _pymod_pos_const(ctx, x, c, kbits)
+    cache[ck] = (x, res)
+    return res
+
+
+def _pymod_pos_const(ctx, x, c, kbits):
     if mkbool(z3.Or(z3.fpIsNaN(x), z3.fpIsInf(x))):
         # Python: nan % c = nan ; inf % c raises? (fmod(inf, c) = nan)
         return z3.fpNaN(D)
